@@ -263,7 +263,16 @@ def classify_reject(trace_lines, bad):
             return "reject/%s/duplicate%s" % (ev, "-with-repeated-filter-entry" if dupf.get(s) else "")
         return "reject/%s/order-or-missing-predecessor" % ev
     if ev == "End":
-        return "reject/End/owed-message-not-delivered"
+        live = set()
+        for ln in trace_lines:
+            if ln["ev"] == "Subscribed":
+                live.add(ln["a"]["s"])
+            elif ln["ev"] == "Removed":
+                live.discard(ln["a"]["s"])
+        n = a.get("nsubs", -1)
+        if n > len(live):
+            return "reject/End/subscription-map-keeps-ended-streams"
+        return "reject/End/owed-message-not-delivered-or-subscription-lost"
     if ev == "Removed":
         return "reject/Removed/stream-ended-without-cause"
     return "reject/%s/not-allowed-here" % ev
